@@ -367,6 +367,111 @@ static void cmd_call (const char *origin, const char *oid, const char *fn)
   print_vars (oid, ob);
 }
 
+/* call_other with the other target kinds of f_call_other():
+ *   call coa <elem>,<elem>,... <fn>   array target (call_all_other); elem = oid | =<path> (string element) | 0 (int)
+ *   call cos =<path> <fn>             string target: the named object, loaded by the call if need be
+ * prints `call ...`, the run lines, `ret <value>|!err`, then `vars <elem>` for every element that is a live object */
+static void label_of (const char *elem, char *out, size_t n)
+{
+  if (elem[0] == '=')
+    {
+      const char *sl = strrchr (elem, '/');
+      snprintf (out, n, "=%s", sl ? sl + 1 : elem + 1);
+    }
+  else
+    snprintf (out, n, "%s", elem);
+}
+
+static void cmd_call_targets (const char *origin, char *targets, const char *fn)
+{
+  char *elem[32];
+  int ne = 0;
+  char res[2048] = "";
+  char shown[1024] = "";
+  volatile int rc = 0;
+  error_context_t econ;
+  char *sfn = intern (fn);
+  for (char *p = strtok (targets, ","); p && ne < 32; p = strtok (0, ","))
+    elem[ne++] = p;
+  for (int i = 0; i < ne; i++)
+    {
+      char lab[128];
+      label_of (elem[i], lab, sizeof lab);
+      snprintf (shown + strlen (shown), sizeof shown - strlen (shown), "%s%s", i ? "," : "", lab);
+    }
+  vh_out ("call %s %s %s", origin, shown, fn);
+  if (!save_context (&econ))
+    {
+      vh_out ("ret !err");
+      return;
+    }
+  if (!setjmp (econ.context))
+    {
+      svalue_t *ret = 0;
+      object_t *c = caller_ob ();
+      eval_cost = CONFIG_INT (__MAX_EVAL_COST__);
+      if (!c)
+        error ("no caller object");
+      if (!strcmp (origin, "coa"))
+        {
+          array_t *a = allocate_empty_array (ne);
+          for (int i = 0; i < ne; i++)
+            {
+              object_t *o;
+              if (elem[i][0] == '=')
+                {
+                  a->item[i].type = T_STRING;
+                  a->item[i].subtype = STRING_MALLOC;
+                  a->item[i].u.string = string_copy (elem[i] + 1, "c07 coa");
+                }
+              else if ((o = vh_obj (elem[i])) && !(o->flags & O_DESTRUCTED))
+                {
+                  a->item[i].type = T_OBJECT;
+                  a->item[i].u.ob = o;
+                  add_ref (o, "c07 coa");
+                }
+              else
+                a->item[i] = const0;
+            }
+          push_refed_array (a);
+          share_and_push_string (sfn);
+          ret = apply (intern ("do_call"), c, 2, ORIGIN_DRIVER);
+        }
+      else
+        {
+          copy_and_push_string (elem[0][0] == '=' ? elem[0] + 1 : elem[0]);
+          share_and_push_string (sfn);
+          ret = apply (intern ("do_call"), c, 2, ORIGIN_DRIVER);
+        }
+      if (!ret)
+        rc = 2;
+      else
+        vh_sv (res, sizeof res, ret);
+      pop_context (&econ);
+    }
+  else
+    {
+      restore_context (&econ);
+      pop_context (&econ);
+      rc = 1;
+    }
+  if (rc == 1)
+    vh_out ("ret !err");
+  else if (rc == 2)
+    vh_out ("ret !no");
+  else
+    vh_out ("ret %s", res);
+  for (int i = 0; i < ne; i++)
+    {
+      object_t *o = elem[i][0] == '=' ? find_object_by_name (elem[i] + 1) : vh_obj (elem[i]);
+      char lab[128];
+      if (!o || (o->flags & O_DESTRUCTED))
+        continue;
+      label_of (elem[i], lab, sizeof lab);
+      print_vars (lab, o);
+    }
+}
+
 static void cmd_evict (const char *oid, const char *fn)
 {
   object_t *ob = vh_obj (oid);
@@ -425,7 +530,7 @@ static int c07_cmd (char *line)
       if (!setjmp (econ.context))
         {
           eval_cost = CONFIG_INT (__MAX_EVAL_COST__);
-          ob = load_object (tok[2], 0);
+          ob = find_or_load_object (tok[2]);	/* the named object, as every efun gets it */
           pop_context (&econ);
         }
       else
@@ -443,6 +548,11 @@ static int c07_cmd (char *line)
   if (!strcmp (tok[0], "dump"))
     {
       cmd_dump (n, tok);
+      return 1;
+    }
+  if (!strcmp (tok[0], "call") && n == 4 && (!strcmp (tok[1], "coa") || !strcmp (tok[1], "cos")))
+    {
+      cmd_call_targets (tok[1], tok[2], tok[3]);
       return 1;
     }
   if (!strcmp (tok[0], "call") && n == 4)
